@@ -112,6 +112,16 @@ func e2eHarness(rc *RunCtx) {
 		if tp.Intn("cfg", 4) != 0 {
 			env.httpRespLimit = limits[tp.Intn("cfg", len(limits))]
 		}
+		if k := tp.Intn("tinylimit", 10); k == 1 || k == 2 {
+			// ... and so are limits below the size of the frame prefix: every message is too large for them
+			tiny := uint(1 + tp.Intn("tinylimit", 6))
+			if k == 1 {
+				env.httpReqLimit = tiny
+			} else {
+				env.httpRespLimit = tiny
+			}
+			rc.Fault("http-size-limit-of-a-few-bytes")
+		}
 		if k := tp.Intn("hugelimit", 6); k == 1 || k == 2 {
 			// limits that no message reaches are limits too: 4 GiB and beyond must not wrap into small ones
 			huge := []uint{1 << 32, 1<<32 + 100, 8 << 30, 1 << 40, 1<<63 - 1, 1<<32 + 1<<20}[tp.Intn("hugelimit", 6)]
@@ -669,6 +679,11 @@ func (g *e2eGen) expectBySize(p *callPlan) {
 		p.sizeInfo = fmt.Sprintf("request framed %d bytes (limit %d), reply framed %d bytes (limit %d)", rq, reqLimit, rp, respLimit)
 		p.expectReqTooLarge = reqLimit > 0 && rq > reqLimit
 		p.expectRespTooLarge, p.sizeAmbiguous = false, false
+		if p.errBulk {
+			p.sizeInfo = fmt.Sprintf("request framed %d bytes (limit %d), the reply is an error reply with a text of %d bytes (limit %d)", rq, reqLimit, len(p.msg), respLimit)
+			p.expectRespTooLarge = !p.expectReqTooLarge
+			return
+		}
 		if !p.expectReqTooLarge && respLimit > 0 && rp > respLimit {
 			if env.kind == "http" && rp <= respLimit+4 {
 				// the HTTP handler compares the reply without its 4-byte frame prefix
@@ -711,7 +726,16 @@ func (g *e2eGen) sizePlan(p *callPlan) {
 	d := deltas[tp.Intn("size", len(deltas))]
 	// where the bulk of a reply sits: in the result (default), in a response header the handler sets, or
 	// half of it in the correlation id (which every reply, the error replies included, echoes)
-	p.bulk = tp.Intn("bulk", 4)
+	p.bulk = tp.Intn("bulk", 5)
+	if p.bulk == 4 {
+		// the reply that does not fit is an error reply: the handler fails with an undeclared error whose text is long
+		p.bulk = 0
+		if which == 1 && respLimit > 0 {
+			p.errBulk = true
+			p.outcome, p.msg = "undeclared", strings.Repeat("e", respLimit+50)
+			g.rc.Fault("bulk-of-the-reply-in-an-error-text")
+		}
+	}
 	if p.bulk == 3 && which == 1 && respLimit > 0 && (reqLimit == 0 || reqLimit >= respLimit) {
 		p.cid = "cid-" + strings.Repeat("c", respLimit*11/20)
 	}
